@@ -13,7 +13,7 @@ steppers on every run (`c06.fixed` at `Rat` and at the Gaussian rationals `CQ`, 
 (2) `stepCount_pos`, `fixpointLoop_spec_any`, `fixpointLoop_none_any`, `fixedStepper_is_iterate_field`,
     `euler_loop_amp_field`, `rk4_loop_amp_field`, `fixedStepper_euler_field`, `fixedStepper_rk4_field`,
     `RealPart`, `roundHE_ofR`, `stepCount_ofR`, `fixedStepper_euler_complexLike`, `fixedStepper_rk4_complexLike`
-(3) `fixedLoop_congr`, `fixedStepper_stage_times`, `fixedStepper_euler_stage_times`, `fixedStepper_rk4_stage_times`,
+(3) `fixedLoop_congr`, `fixedStepper_stage_times`, `mem_callTimes`, `fixedStepper_callTimes`, `fixedStepper_euler_stage_times`, `fixedStepper_rk4_stage_times`,
     `fixedStepper_implicit_cn_stage_times`, `ab2Stepper_stage_times`
 (4) termination of the adaptive loops (ordered Archimedean field): `Shrinks`, `adjustDt_shrinks`, `adaptive_terminates`,
     `adaptive_finishes_exact_or_floor`, `eulerAdaptive_finishes_exact_or_floor`
@@ -382,6 +382,21 @@ theorem fixedStepper_stage_times {σ ρ : Type} (mk : ρ → σ → K → Option
   simp only
   rw [fixedLoop_congr (mk f) (mk g) dt ts (stepCount dt ts te) 0 s
     (fun j _ hj x => hmk f g _ (h j (by omega)) x)]
+
+theorem mem_callTimes (stage : K → K → List K) (dt ts : K) (n j : Nat) (hj : j < n) (s : K)
+    (hs : s ∈ stage (ts + ((j : Nat) : K) * dt) dt) : s ∈ callTimes stage dt ts n := by
+  unfold callTimes
+  exact List.mem_flatMap.mpr ⟨j, List.mem_range.mpr hj, hs⟩
+
+/-- **the same in terms of `callTimes`** - the list of rate-evaluation times the driver reports for a call and the check
+compares with the times the recording rate function sees in the real stepper: a call depends on the rate only through
+its values at these times -/
+theorem fixedStepper_callTimes {σ : Type} (dt : K) (mk : Rate K → σ → K → Option σ) (stage : K → K → List K)
+    (hmk : ∀ f g t, AgreeAt f g (stage t dt) → ∀ x, mk f x t = mk g x t) (f g : Rate K) (ts te : K)
+    (h : AgreeAt f g (callTimes stage dt ts (stepCount dt ts te))) (s : σ) :
+    fixedStepper (mk f) dt ts te s = fixedStepper (mk g) dt ts te s :=
+  fixedStepper_stage_times mk (fun f g t => AgreeAt f g (stage t dt)) hmk f g dt ts te
+    (fun j hj s' hs' => h s' (mem_callTimes stage dt ts _ j hj s' hs')) s
 
 end loopTimes
 
